@@ -92,6 +92,9 @@ def run_property(chk, pid, want_parse=True, want_build=False, quick_n=6000, thor
                        "result) pairs")
     chk.trusted += ["correspondence harness harness/wire_main.cpp + wire_<family>.h; generators checks/wire_common.py, checks/wire_gen_*.py",
                     "translator/gen_tags.py (next-protocol tables regenerated from src/detail/pdu_helpers.cpp on this run)",
+                    "translator/gen_limits.py (header sizes, minimum frame sizes, RFC 4884 minimum and units, header-length maxima, "
+                    "defaults: compiled probe + preprocessed function bodies at named anchors; tied to the wire models' numerals by "
+                    "Props/Limits/Wire.lean)",
                     "g++ 12 / ASan+UBSan(-enum)+LSan build of /repo's working tree with -DTINS_VERIF_HOOKS"]
     chk.assumptions += [
         "classes outside `modelled_classes` are covered by the implementation-side oracle only (no Lean model yet): "
